@@ -355,7 +355,20 @@ def check_c12(params, out):
     if out.get("second_outcome") is not None and out["outcome"] == ["normal"]:
         last = [ev for ev in tr if ev[0] == "stop_cond"]
         st2 = out.get("second_trace") or []
-        if last and last[-1][2] and any(ev[0] in ("s_suggest", "b_start", "b_resume", "cb_loop_start") for ev in st2):
+        # "the condition holds when the first run has ended": the last evaluation held AND nothing happened after it
+        # (with wait_trial_completion_when_stopping the loop goes through further iterations after the last evaluation
+        # that held and leaves by 'break' without another evaluation; a PAUSE decision in such an iteration takes a trial
+        # out of num_trials_finished again, so a count criterion that held may not hold any more - the non-monotone
+        # reading of c12_no_start_after_first_hold_refuted). Otherwise: a count / cost field of the criterion holds on the
+        # counters of the tuner AFTER the first run (independent re-evaluation, expected_criterion).
+        i_last = max((i for i, ev in enumerate(tr) if ev[0] == "stop_cond"), default=-1)
+        quiet_after = not any(ev[0] == "cb_loop_start" for ev in tr[i_last + 1:])
+        cnt = out.get("counters") or {}
+        count_crit = {k: v for k, v in crit.items() if k in ("max_num_evaluations", "max_num_trials_started",
+                                                            "max_num_trials_completed", "max_num_trials_finished", "max_cost")}
+        holds_on_end_state = bool(cnt) and any(v is True for v in expected_criterion(count_crit, cnt).values())
+        held_at_end = bool(last and last[-1][2]) and (quiet_after or holds_on_end_state)
+        if held_at_end and any(ev[0] in ("s_suggest", "b_start", "b_resume", "cb_loop_start") for ev in st2):
             bad.append(("run() called again on the finished Tuner (stop condition held when the first run ended) enters the loop "
                         "again: %s" % ([ev[0] for ev in st2][:8],), dict(check="exit", event="second_run_enters_loop")))
     # ---- the user's criterion / the failure limit re-evaluated at the end of EVERY iteration (whether or not the tuner
